@@ -691,8 +691,14 @@ func init() {
 	lp.RegisterGen("C19", genC19)
 	lp.RegisterGen("C19", func(c *lp.Ctx) {
 		bigShapes(c, func(cs *Case) {
-			if a := c.Do("trie.string"); a == "panic" {
-				cs.viol(c, "String() must not panic", "trie.string", "a rendering", a)
+			// the model reads a leaf value in time linear in the value section: rendering is
+			// quadratic there, so the largest shape is rendered by the implementation only
+			if len(cs.Keys) <= 20000 {
+				if a := c.Do("trie.string"); a == "panic" {
+					cs.viol(c, "String() must not panic", "trie.string", "a rendering", a)
+				}
+			} else if _, msg := lp.CatchMsg(func() string { return S.St.String() }); msg != "" {
+				cs.viol(c, "String() must not panic", "trie.string", "a rendering", "panic: "+msg)
 			}
 			cs.checkString(c)
 			c.Do("trie.stat")
